@@ -180,6 +180,7 @@ func (mi *MessageInfo) unmarshalPointerLazy(b []byte, p pointer, groupTag protow
 	var lazyIndex []protolazy.IndexEntry
 	var lastNum protowire.Number
 	outOfOrder := false
+	lastIndexed := false
 	lazyDecode := false
 	presence = p.Apply(mi.presenceOffset).PresenceInfo()
 	lazy = p.Apply(mi.lazyOffset).LazyInfoPtr()
@@ -370,8 +371,8 @@ func (mi *MessageInfo) unmarshalPointerLazy(b []byte, p pointer, groupTag protow
 		}
 		b = b[n:]
 		end := start - len(b)
-		if lazyDecode && f != nil && f.isLazy {
-			if num != lastNum {
+		if lazyDecode && f != nil && f.isLazy && (err == nil || discardUnknown) {
+			if num != lastNum || !lastIndexed {
 				lazyIndex = append(lazyIndex, protolazy.IndexEntry{
 					FieldNum: uint32(num),
 					Start:    uint32(pos),
@@ -382,6 +383,11 @@ func (mi *MessageInfo) unmarshalPointerLazy(b []byte, p pointer, groupTag protow
 				lazyIndex[i].End = uint32(end)
 				lazyIndex[i].MultipleContiguous = true
 			}
+			lastIndexed = true
+		} else {
+			// A record that went to the unknown fields (e.g. wrong wire
+			// type) is not part of the lazy field and breaks contiguity.
+			lastIndexed = false
 		}
 		if num < lastNum {
 			outOfOrder = true
